@@ -267,7 +267,13 @@ func c02Check(r *vkit.Run, in c02Input) {
 	}
 	// origin labels
 	if obs.Lines != nil {
-		for line, kv := range obs.Lines {
+		lineKeys := make([]string, 0, len(obs.Lines))
+		for line := range obs.Lines {
+			lineKeys = append(lineKeys, line)
+		}
+		sort.Strings(lineKeys) // the first mismatch reported must not depend on map order
+		for _, line := range lineKeys {
+			kv := obs.Lines[line]
 			var src int
 			if _, err := fmt.Sscanf(line, "from-id%d-", &src); err != nil || src >= len(in.Ctrs) {
 				fail("unexpected line "+strconv.Quote(line), "")
@@ -278,7 +284,14 @@ func c02Check(r *vkit.Run, in c02Input) {
 				k, v, _ := strings.Cut(p, "=")
 				have[k] = v
 			}
-			for k, v := range in.Ctrs[src].refLabels(fmt.Sprintf("id%d", src)) {
+			ref := in.Ctrs[src].refLabels(fmt.Sprintf("id%d", src))
+			refKeys := make([]string, 0, len(ref))
+			for k := range ref {
+				refKeys = append(refKeys, k)
+			}
+			sort.Strings(refKeys)
+			for _, k := range refKeys {
+				v := ref[k]
 				if hv, present := have[k]; !present || hv != v {
 					fail(fmt.Sprintf("line %q carries %s=%q, its container has %s=%q", line, k, have[k], k, v), "")
 					return
